@@ -1220,13 +1220,13 @@ func runC18SameType(w *hx.Worker, inputs []string) {
 			return participle.Map(wrap("<", ">"), "A")
 		case "Map{}(A,B)":
 			return participle.Map(wrap("{", "}"), "A", "B")
-		case "Map[](B)":
-			return participle.Map(wrap("[", "]"), "B")
+		case "Map[](B,B)":
+			return participle.Map(wrap("[", "]"), "B", "B") // a type named twice in one selection is selected once: each token is seen exactly once
 		default:
 			return participle.Map(wrap("(", ")"))
 		}
 	}
-	names := []string{"Upper(A)", "Map<>(A)", "Map{}(A,B)", "Map[](B)", "Map()(all)"}
+	names := []string{"Upper(A)", "Map<>(A)", "Map{}(A,B)", "Map[](B,B)", "Map()(all)"}
 	var perms [][]int
 	var rec func(cur []int, used int)
 	rec = func(cur []int, used int) {
